@@ -22,6 +22,52 @@ def run(ctx):
     with quiet_stderr():
         scen, recs = cc.e3(ctx, digital_rf, ctx.pick(40, 1500), observe_pairs=2, nvec=0)
         nfiles_a = 0
+        for cfg, rr in []:
+            byd = {}
+            for r in rr:
+                ov = any(not (r["last"] < a or r["first"] > b) for a, b in byd.get(r["d"], [])) and cfg.mode != "contU"
+                byd.setdefault(r["d"], []).append((r["first"], r["last"]))
+                evs.append(pd.rf_record(cfg.n, cfg.d, cfg.fc, cfg.sc, r["name_ms"], r["sub"], r["first"], r["last"], cfg.mode == "contU", ov,
+                                        tag=cfg.describe()))
+                nfiles_a += 1
+        # (a2) back-fill: a later session starts earlier and records forward into a subdirectory that already exists
+        nback = 0
+        for i in range(ctx.pick(12, 300)):
+            import numpy as np
+            from ..drivers import chan_drv as cd
+            import shutil
+            n, d, fc = cg.random_rate(rng, 400)
+            k = rng.choice([2, 3])
+            sc_ms = fc * k
+            while sc_ms % 1000:
+                sc_ms += fc * k
+            nw = 3 * (sc_ms // fc) if sc_ms // fc <= 6 else 0
+            if not nw:
+                continue
+            per = sc_ms // fc  # windows per subdirectory
+            t0 = (rng.randint(315532800, 4102444800) * 1000) // sc_ms * sc_ms
+            cfg = cd.ChanConfig(n, d, fc, sc_ms // 1000, np.dtype("<i2"), False, 1, rng.choice(["gapped", "contU", "contC"]), t0, nw, seed=i)
+            root = os.path.join(ctx.work, "chan")
+            shutil.rmtree(root, ignore_errors=True)
+            os.makedirs(root)
+            ch = cd.Channel(digital_rf, root, cfg, [cfg.params()])
+            b = cfg.bound
+            # session 1: somewhere in the second (or third) subdirectory
+            w1 = per + rng.randint(1, per - 1) if per > 1 else per + 1
+            ch.open(1, b[w1], 1)
+            ch.write([[b[w1], max(1, (b[w1 + 1] - b[w1]))]])
+            ch.close()
+            # session 2: starts in the first subdirectory and records forward across the subdirectory boundary
+            s2 = b[rng.randint(0, per - 1)]
+            ch.open(1, s2, 1)
+            ch.write([[s2, b[w1] - s2]])
+            ch.close()
+            ch.observe([1], rng, npairs=3, nvec=0)
+            scen.append(ch.scenario("backfill%d" % i))
+            recs.append((cfg, ch.file_records))
+            shutil.rmtree(root, ignore_errors=True)
+            nback += 1
+        ctx.extra["backfill_histories"] = nback
         for cfg, rr in recs:
             byd = {}
             for r in rr:
